@@ -74,8 +74,10 @@ type Edges struct {
 	Apple string
 	Zz    bool
 	Az    int64
-	Ñu    int32 // a first letter outside ASCII: lower-cased on the wire? no - left as it is, whole
-	Sid   SID   // a named string type
+	Ñu    int32   // a first letter outside ASCII: lower-cased on the wire? no - left as it is, whole
+	Sid   SID     // a named string type
+	İl    int32   // a first letter whose simple case mapping does not come back (İ -> i -> I)
+	Kel   float64 // the Kelvin sign: an upper-case letter whose lower case is the ASCII k
 	Mid   *Edges
 }
 
